@@ -118,6 +118,9 @@ def suite_mixed(rng, tier, flavour):          # C12: one directory handed betwee
     for p in gen.damage_programs(rng, "astd", 2 if tier == "quick" else 30, exhaustive_cuts=False):
         yield (gen.mix_flavours(rng, p), ["sync", "astd", "tok"], {})
 
+def suite_refcache(rng, tier, flavour):       # C17: complete reference-written caches (multi-hash integrity included)
+    yield from gen.ref_cache_programs(rng, flavour, 120 if tier == "quick" else 1200)
+
 def suite_cancel(rng, tier, flavour):         # C03 / C20: cancelled async writes
     # one blocking thread: the harness can then wait for the abandoned task (FIFO queue) before the next call
     for p in gen.abandon_programs(rng, flavour, 150 if tier == "quick" else 1500):
@@ -135,7 +138,7 @@ def step_c04(fl, tier, rng): return steps.suite_kill(fl, tier, rng, "C04")
 
 REGISTRY = {
     "C07": {"flavours": Q3, "suites": [], "step_suites": [("schedules", steps.suite_conc)],
-            "rule": "forced schedules on the real binaries (two processes, one directory): operation A is parked by strace (delay on entry) before its i-th system call that names a cache path — every such call in the thorough tier, a spread of them in the quick tier — while operation B runs to completion in a second process, then A resumes; pairs drawn from {write (same key / other key, same or other content), write_hash, read, read_hash, metadata, remove, remove_hash, exists, list} on cold and warm caches; both results and the final tree (timestamps masked) must equal those of A;B or of B;A run serially on the same binaries."},
+            "rule": "forced schedules on the real binaries (two processes, one directory): operation A is parked by strace (delay on entry) before its i-th system call that names a cache path — every such call in the thorough tier, a spread of them in the quick tier — while operation B runs to completion in a second process, then A resumes; pairs drawn from {write (same key / other key, same or other content), write_hash, a streamed writer whose commit is rejected (wrong declared size) with the same content, read, read_hash, metadata, remove, remove_hash, exists, list} on cold and warm caches; both results and the final tree (timestamps masked) must equal those of A;B or of B;A run serially on the same binaries."},
     "C19": {"flavours": Q3, "suites": [("link", suite_link)], "link_to": True,
             "rule": "targets of 0 / 1 / small / > 16 KiB and > 32 KiB bytes in the caller's directory; link_to / link_to_hash and linkers opened with options (declared size equal / wrong, integrity correct / wrong / other algorithm, algorithm, time, metadata) or plain, absolute and relative target paths, 0..3 partial reads (0, 1, 8, 100, 16384, 40000 byte buffers) before commit or drop, addresses that already exist as regular content; read / metadata / read_hash / exists / copy / list afterwards; whole tree compared (symlink, not a copy; target untouched); then targets are modified / grown / emptied / removed and everything is read again (errors, never other bytes); three flavours built with the link_to feature."},
     "C03": {"flavours": Q3, "suites": [("cancel", suite_cancel)], "step_suites": [("kill", step_c03), ("kill_renames_fail", steps.suite_kill_under_fault)],
@@ -148,8 +151,8 @@ REGISTRY = {
             "rule": "strace path audit: for hostile / confusable / random Unicode keys a 25-call program covering every kind of operation is traced; every mutating system call must name paths inside the cache root (extractions: or their destination), read-only calls must issue no mutating system call, path components under the cache are never empty, '.', '..' or contain NUL, components under index-v5 are hex, content files are never opened for writing in place, the working directory is untouched."},
     "C11": {"flavours": Q3, "suites": [("meta", suite_meta), ("commit", suite_commit)],
             "rule": "several writes to one key with fields (data, time incl. 2^128-1, JSON metadata trees, raw bytes, declared size, single/multi-hash integrity) drawn from small pools so that successive records differ in one field or repeat earlier values, via streamed writers and index::insert, read back by metadata/find/list after each; bucket bytes compared byte for byte (explicit times); default time checked against the call's wall-clock window."},
-    "C17": {"flavours": Q3, "suites": [("refwrites", suite_refwrites), ("meta", suite_meta), ("hist", suite_hist)],
-            "rule": "both directions: buckets written by the python reference writer in several valid JSON spellings (spaces, \\uXXXX escapes, shuffled / extra / omitted optional fields) read by the library; library-written caches read by the naive reference reader (refcheck after every index write); bucket bytes and paths compared with the model byte for byte."},
+    "C17": {"flavours": Q3, "suites": [("refwrites", suite_refwrites), ("refcache", suite_refcache), ("meta", suite_meta), ("hist", suite_hist)],
+            "rule": "both directions: buckets written by the python reference writer in several valid JSON spellings (spaces, \\uXXXX escapes, shuffled / extra / omitted optional fields) read by the library; complete reference-written caches (record + content file; integrity listing one to three hashes in any order, content under the strongest algorithm) read by key, by address, streamed and copied; library-written caches read by the naive reference reader (refcheck after every index write); bucket bytes and paths compared with the model byte for byte."},
     "C20": {"flavours": Q3, "suites": [("crafted", suite_crafted), ("all", suite_all), ("abandon", suite_abandon), ("damage", suite_damage), ("cancel", suite_cancel)], "no_panic": True,
             "rule": "crafted checksum-valid records (odd integrity strings, non-object JSON, missing fields, 200-deep nesting), directories and dangling symlinks at bucket and content paths, declared-size chunkings, buckets with records cut at every byte length / garbage / invalid UTF-8 lines, plus the general and abandonment programs; every call under catch_unwind and a watchdog: any panic or hang of the implementation is a violation whatever the model says."},
     "C02": {"flavours": Q3, "suites": [("roundtrip", suite_roundtrip), ("roundtrip_ok", suite_roundtrip_ok)],
